@@ -626,4 +626,55 @@ theorem bounded_work {m : Mode} {k : Nat} {t0 D : Time} : ∀ {ls : List Label} 
       rw [nonTicks_cons_of_not_tick hnt]
       omega
 
+/-! ### a concrete infinite run (used by Props/C17 as witness that the fairness hypotheses are satisfiable) -/
+
+/-- one worker; the start-up timer value is consumed, task 1 (deadline 5) is submitted at time 0,
+    pushed, the timer armed for 5; at time 6 it fires, the task runs; then only time passes -/
+def fairPrefix : List Label :=
+  [ .w 0 (.fire 0), .w 0 .recvTimer, .w 0 .loopEnd,
+    .put 1 5, .notify, .takeToken, .swap, .handoff 0,
+    .w 0 .readNow, .w 0 .stop, .w 0 .drain, .w 0 .reset,
+    .tick 6, .w 0 (.fire 6), .w 0 .recvTimer, .w 0 (.pop ⟨1, 5⟩), .w 0 .loopEnd ]
+
+def fairFin (m : Mode) : State := (run m (init 1 0) fairPrefix).getD (init 1 0)
+
+def fairSt (m : Mode) (n : Nat) : State :=
+  if n < 17 then (run m (init 1 0) (fairPrefix.take n)).getD (init 1 0)
+  else { fairFin m with now := 6 + (n - 17) }
+
+def fairLab (n : Nat) : Label := fairPrefix.getD n (.tick 1)
+
+def fairFinLit : State :=
+  { now := 6, sub := [⟨1, 5⟩], pre := [], pend := 0, ntok := false, ppc := .idle, batch := [],
+    ws := [{ pc := .select, heap := [], timer := ⟨none, none⟩, drained := true, armedAt := 0, usedNow := 0 }],
+    done := [⟨⟨1, 5⟩, 6⟩], log := [.exec 1 6, .put 1 5 0] }
+
+theorem fairFin_eq (m : Mode) : fairFin m = fairFinLit := by cases m <;> decide
+
+/-- in the final state (at any later clock value) nothing but `Put` and `tick` is enabled -/
+theorem fairFin_dead (m : Mode) (x : Time) (l : Label) (hp : ∀ id ts, l ≠ .put id ts)
+    (ht : ∀ d, l ≠ .tick d) : step m { fairFinLit with now := x } l = none := by
+  cases l with
+  | tick d => exact absurd rfl (ht d)
+  | put id ts => exact absurd rfl (hp id ts)
+  | notify => rfl
+  | takeToken => rfl
+  | swap => rfl
+  | handoff i => rfl
+  | w i wl =>
+    cases i with
+    | zero => cases wl <;> rfl
+    | succ i => rfl
+
+theorem fairSt_tail (m : Mode) (n : Nat) (h : 17 ≤ n) :
+    fairSt m n = { fairFinLit with now := 6 + (n - 17) } := by
+  simp only [fairSt, Nat.not_lt.mpr h, if_false, fairFin_eq]
+
+theorem fairLab_tail (n : Nat) (h : 17 ≤ n) : fairLab n = .tick 1 := by
+  have hlen : fairPrefix.length ≤ n := h
+  simp [fairLab, List.getD, List.getElem?_eq_none hlen]
+
+theorem fair_next_prefix (m : Mode) : ∀ n, n < 17 → step m (fairSt m n) (fairLab n) = some (fairSt m (n + 1)) := by
+  cases m <;> decide
+
 end KcpVerif.Sched
